@@ -37,6 +37,14 @@ CHECKS = {
          "The Matter TLV grammar is a TLA+ module (Tlv.tla): Bytes is the reference encoder, Parse the reference decoder (recursive descent, depth limit, 64-bit lengths as byte lists so 2^64-1 is representable). TLC enumerates every value tree of the universe (all tag forms, integer widths and extremes, floats, booleans, nulls, UTF-8 / octet strings with 1-, 2-, 4- and 8-byte length fields, containers of up to two children with one nesting level; the full universe in the thorough tier), checks Parse(Bytes(e)) = e, and emits every encoding with the reference verdict of every mutation (each truncation; each byte replaced by 0, 1, 0x18, 0xff, +1; a byte appended). The harness writes each tree with the real writer (byte-equal to the reference), pokes every public accessor of the real reader on every input under a panic guard and an iteration budget, and re-encodes what it decoded (byte-equal wherever the reference says well-formed).",
          "Trusted: the reference grammar (sanity: TLC's RoundTrip invariant). Values come from a palette, not all 2^64. Derived ToTLV/FromTLV encoders of wire structures are exercised indirectly by the full-stack checks only.",
          "TLA+ reference grammar enumerated by TLC (values + mutations with verdicts) vs the real codec", "DESIGN.md section 4 C16"),
+ "C09": ("model_checking",
+         "TLC proves exhaustively (one request/response round on one exchange, 2-3 retransmissions, up to 8-9 adversary deliveries, arbitrary loss, duplication and reordering, lazy or eager applications) that the MRP machine transcribed from mrp.rs / exchange.rs / session.rs / transport.rs keeps SuccessIsTrue, AtMostOnceInOrder, RetransIdentical and the transmission budget. Adversary schedules - TLC simulations of the same machine with the real budget (5 retransmissions) over two rounds, plus every schedule with up to two (thorough: three) drop / duplicate faults among the first datagrams - are replayed on two real Matter stacks (planted CASE session, two applications using Exchange::send / recv / acknowledge) under the virtual clock; TLC validates the recorded application events and wire tap against Layer P (at-most-once in order, success only if delivered, failure only as TxTimeout within the budget horizon and never when a transmission and an ack both got through, no retransmission before the back-off, at most 6 transmissions, every duplicate asking for an ack is acknowledged again, every send call returns).",
+         "Trusted: TLC; the tap decodes datagrams with rs-matter's own PacketHdr. One exchange on one CASE session; other session kinds and concurrent exchanges are covered by C10 / C03.",
+         "TLA+ model checking (TLC) + TLC-generated and enumerated fault schedules replayed on the real stacks + TLC trace validation", "DESIGN.md section 4 C09"),
+ "C15": ("model_checking",
+         "Layer P rules on the wire tap (MrpProp.tla TxOk / AllocOk): new messages of a sender on a session carry strictly increasing counters, a datagram with a counter seen before is bit-identical to the first one (so no two plaintexts under one nonce), freshly chosen session / exchange ids are not ids of live sessions / exchanges. TLC proves RetransIdentical on the MRP model (the piggy-backed ack of a rebuilt retransmission cannot differ with a conforming peer) and validates the tap of all C09 schedules (hundreds of runs forcing retransmissions of requests, responses and ack-carrying messages) plus a sweep of more than 2^16 exchange-id and session-id allocations with live exchanges and sessions.",
+         "Trusted: TLC; byte identity is checked on interned datagram bytes. Handshake messages (Sigma / PAKE) are added by the C01 / C02 taps when those checks are present.",
+         "TLA+ model checking (TLC) + TLC trace validation of the wire tap of fault schedules replayed on the real stacks", "DESIGN.md section 4 C15"),
 }
 
 NOT_YET = "check not built yet in this tree (see DESIGN.md section 7 for the build order); not claimed"
